@@ -81,7 +81,8 @@ class _Gen:
     def declare(self):
         rng, P = self.rng, self.P
         self.cell, self.gdim = rng.choice([("triangle", 2)] * 5 + [("tetrahedron", 3)] * 2 + [("interval", 1)])
-        self.nmesh = 2 if rng.random() < 0.35 else 1
+        r = rng.random()
+        self.nmesh = 3 if r < 0.15 else (2 if r < 0.45 else 1)  # up to two meshes besides the one integrated over
         self.mesh = [None] * self.nmesh
         self.space = {}
         g = self.gdim
